@@ -907,6 +907,12 @@ impl<C: Crypto> Controller<C> {
     }
 }
 
+/// A subscribe running in the background ([`Boot::subscribe_spawn`]).
+pub struct SubTask {
+    slot: Rc<RefCell<Option<super::imdev::ReadOutcome>>>,
+    task: usize,
+}
+
 /// A CASE handshake running in the background ([`Boot::case_spawn`]).
 pub struct CaseTask {
     pub ctrl: usize,
@@ -1561,6 +1567,65 @@ impl<'a, CC: Crypto> Boot<'a, CC> {
             .last()
             .ok_or("no CASE session on the device")?;
         Ok(SessPair { ctrl_sid, dev_sid, dev_local_sess: dev_local, ctrl })
+    }
+
+    /// Start a subscribe as a BACKGROUND task whose StatusResponse to one priming chunk is held
+    /// back by `gate` (see `imdev::subscribe_gated`); finish it with [`Boot::subscribe_finish`].
+    /// `paths`: `(endpoint, cluster, attribute)`, `None` = wildcard.
+    pub fn subscribe_spawn(
+        &mut self,
+        ctrl: usize,
+        sess: u32,
+        paths: &[(Option<u16>, Option<u32>, Option<u32>)],
+        min_s: u16,
+        max_s: u16,
+        keep: bool,
+        gate: Rc<super::imdev::SubGate>,
+    ) -> SubTask {
+        use super::imdev::{Path, ReadOutcome, ReadReq, SubscribeReq};
+        let c = &self.ctrls[ctrl];
+        let (m, cc) = (&*c.matter, &c.crypto);
+        let req = SubscribeReq {
+            read: ReadReq {
+                attrs: Some(paths.iter().map(|(e, c, a)| Path::new(*e, *c, *a)).collect()),
+                events: None,
+                fabric_filtered: true,
+                dataver_filters: vec![],
+                event_min: None,
+            },
+            keep_subscriptions: keep,
+            min_interval_s: min_s,
+            max_interval_s: max_s,
+        };
+        let slot: Rc<RefCell<Option<ReadOutcome>>> = Rc::new(RefCell::new(None));
+        let s2 = slot.clone();
+        let task = self.ex.spawn("subscribe.bg", async move {
+            let r = match Exchange::initiate_for_session(m, cc, sess) {
+                Ok(mut ex) => super::imdev::subscribe_gated(&mut ex, &req, &gate).await,
+                Err(e) => ReadOutcome { error: Some(format!("initiate:{:?}", e.code())), ..Default::default() },
+            };
+            *s2.borrow_mut() = Some(r);
+        });
+        SubTask { slot, task }
+    }
+
+    /// Run until `cond()` holds or the background subscribe has ended (at most `max_us`).
+    pub fn run_until_or_subscribe_end(&mut self, t: &SubTask, max_us: u64, mut cond: impl FnMut() -> bool) -> bool {
+        let slot = t.slot.clone();
+        let dl = clock::now() + max_us;
+        self.ex.run_until(dl, || cond() || slot.borrow().is_some());
+        cond()
+    }
+
+    /// Let the background subscribe finish (at most `max_us`, then it is cancelled).
+    pub fn subscribe_finish(&mut self, t: SubTask, max_us: u64) -> super::imdev::ReadOutcome {
+        let slot = t.slot.clone();
+        let dl = clock::now() + max_us;
+        self.ex.run_until(dl, || slot.borrow().is_some());
+        self.ex.kill(t.task);
+        self.ex.settle();
+        let r = slot.borrow_mut().take();
+        r.unwrap_or_else(|| super::imdev::ReadOutcome { error: Some("subscribe did not finish".into()), ..Default::default() })
     }
 
     /// Start a real CASE handshake as a BACKGROUND task (see [`Boot::case_finish`]); combine
